@@ -74,6 +74,22 @@ def key_to_val(k: Tuple[str, Any]) -> V:
     return Const(k[1]) if k[0] == "c" else RefV(k[1])
 
 
+def _prov(v) -> Any:
+    import re as _re
+    m = _re.match(r"^p\[(\d+)\]", getattr(v, "path", "") or "")
+    return int(m.group(1)) if m else "?"
+
+
+def _prov_list(v) -> list:
+    if isinstance(v, AbsList):
+        return list(v.order)
+    if isinstance(v, ListV):
+        return [_prov(v)]
+    if isinstance(v, PyList):
+        return [_prov(i) for i in v.items] + (["?"] if v.loop_parts else [])
+    return ["?"]
+
+
 def is_strlike(v: V) -> bool:
     return isinstance(v, Str) or (isinstance(v, Const) and isinstance(v.v, str)) or \
         (isinstance(v, Sym) and v.hint == "str")
@@ -266,13 +282,13 @@ class ExprMixin(CallMixin):
                 try:
                     return Const(l.v + r.v)
                 except Exception:
-                    self.may_raise("builtins.TypeError", "+")
+                    self.may_raise("builtins.TypeError", "+", definite=True)
                     raise _Raise(self.make_exc("builtins.TypeError"), self.cur_where)
             if is_strlike(l) or is_strlike(r):
                 for side in (l, r):
                     if isinstance(side, (NodeV, NewNode)) or (isinstance(side, Const) and side.v is None):
                         self.event("bad_concat", value=_describe(side))
-                        self.may_raise("builtins.TypeError", "str + non-str")
+                        self.may_raise("builtins.TypeError", "str + non-str", definite=True)
                         raise _Raise(self.make_exc("builtins.TypeError"), self.cur_where)
                 s = Str(to_str_parts(l) + to_str_parts(r))
                 return Const(s.const()) if s.is_const() else s
@@ -344,6 +360,7 @@ class ExprMixin(CallMixin):
         elif isinstance(lst, AbsList):
             lst.elem = self.join_vals(lst.elem, item)
             lst.minlen += 0 if self.loop_ctx else 1
+            lst.order.append("?" if self.loop_ctx else _prov(item))
 
     def list_extend(self, lst: V, other: V, fresh: bool = False) -> V:
         other = self.resolve_alt(other)
@@ -370,10 +387,12 @@ class ExprMixin(CallMixin):
             if items is not None:
                 for it in items:
                     lst.elem = self.join_vals(lst.elem, it)
+                    lst.order.append("?" if self.loop_ctx else _prov(it))
                 if not self.loop_ctx:
                     lst.minlen += len(items)
             elif isinstance(other, (AbsList, ListV, MapV)):
                 lst.elem = self.join_vals(lst.elem, other.elem)
+                lst.order.extend(["?"] if self.loop_ctx else _prov_list(other))
                 if not self.loop_ctx:
                     lst.minlen += getattr(other, "minlen", 0)
             return lst
@@ -400,8 +419,9 @@ class ExprMixin(CallMixin):
             e = ea
             for it in items:
                 e = self.join_vals(e, it)
-            return AbsList(e, self.list_minlen(a) + len(items))
-        return AbsList(self.join_vals(ea, getattr(b, "elem", None)), self.list_minlen(a) + self.list_minlen(b))
+            return AbsList(e, self.list_minlen(a) + len(items), _prov_list(a) + [_prov(it) for it in items])
+        return AbsList(self.join_vals(ea, getattr(b, "elem", None)), self.list_minlen(a) + self.list_minlen(b),
+                       _prov_list(a) + _prov_list(b))
 
     def join_vals(self, a: Optional[V], b: Optional[V]) -> V:
         if a is None:
@@ -541,7 +561,7 @@ class ExprMixin(CallMixin):
                     return Sym("parser_stack", idx.v)
                 if idx.v >= n:
                     self.event("p_index_out_of_range", production=str(base.production), index=idx.v, length=n)
-                    self.may_raise("builtins.IndexError", f"p[{idx.v}]")
+                    self.may_raise("builtins.IndexError", f"p[{idx.v}]", definite=True)
                     raise _Raise(self.make_exc("builtins.IndexError"), self.cur_where)
                 self.event("p_read", index=idx.v)
                 return base.values[idx.v]
@@ -565,7 +585,7 @@ class ExprMixin(CallMixin):
                 if -n <= idx.v < n:
                     return base.items[idx.v]
                 self.event("index_out_of_range", value=_describe(base), index=idx.v, length=n)
-                self.may_raise("builtins.IndexError", f"[{idx.v}]")
+                self.may_raise("builtins.IndexError", f"[{idx.v}]", definite=True)
                 raise _Raise(self.make_exc("builtins.IndexError"), self.cur_where)
             if 0 <= idx.v < len(base.items):
                 return base.items[idx.v]
@@ -574,7 +594,7 @@ class ExprMixin(CallMixin):
             try:
                 return Const(base.v[idx.v])
             except IndexError:
-                self.may_raise("builtins.IndexError", f"[{idx.v}]")
+                self.may_raise("builtins.IndexError", f"[{idx.v}]", definite=True)
                 raise _Raise(self.make_exc("builtins.IndexError"), self.cur_where)
         if isinstance(base, (ListV, AbsList, MapV)) and isinstance(idx, Const) and isinstance(idx.v, int):
             need = idx.v + 1 if idx.v >= 0 else -idx.v
@@ -595,7 +615,7 @@ class ExprMixin(CallMixin):
                 if kk in base.items:
                     return base.items[kk]
                 if not base.opaque_keys:
-                    self.may_raise("builtins.KeyError", f"[{idx!r}]")
+                    self.may_raise("builtins.KeyError", f"[{idx!r}]", definite=True)
                     raise _Raise(self.make_exc("builtins.KeyError"), self.cur_where)
                 self.may_raise("builtins.KeyError", f"[{idx!r}]")
                 return Sym("item", base, idx)
@@ -606,7 +626,7 @@ class ExprMixin(CallMixin):
             return Sym("item", base, idx)
         if isinstance(base, Const) and isinstance(base.v, dict):
             return self.getitem(from_py(base.v), idx, module, node)
-        self.may_raise("builtins.LookupError", f"{_describe(base)}[{_describe(idx)}]")
+        self.may_raise("builtins.KeyError", f"{_describe(base)}[{_describe(idx)}]")
         return Sym("item", base, idx)
 
     def dict_lookup_opaque(self, d: PyDict, key: V, default: Optional[V], subscript: bool = False) -> V:
@@ -626,7 +646,7 @@ class ExprMixin(CallMixin):
                 self.cond(f"type({node.path}) in", tuple(ks))
             if hit is None:
                 if subscript:
-                    self.may_raise("builtins.KeyError", f"[type({node.path})]")
+                    self.may_raise("builtins.KeyError", f"[type({node.path})]", definite=True)
                     raise _Raise(self.make_exc("builtins.KeyError"), self.cur_where)
                 return default if default is not None else NONE
             return hit
@@ -637,7 +657,7 @@ class ExprMixin(CallMixin):
                 if self.sym_compare_eq(key, k[1]):
                     return d.items[k]
             if subscript:
-                self.may_raise("builtins.KeyError", f"[{_describe(key)}]")
+                self.may_raise("builtins.KeyError", f"[{_describe(key)}]", definite=True)
                 raise _Raise(self.make_exc("builtins.KeyError"), self.cur_where)
             return default if default is not None else NONE
         if subscript:
@@ -674,7 +694,7 @@ class ExprMixin(CallMixin):
             try:
                 return {ast.Lt: l.v < r.v, ast.LtE: l.v <= r.v, ast.Gt: l.v > r.v, ast.GtE: l.v >= r.v}[type(op)]
             except Exception:
-                self.may_raise("builtins.TypeError", "ordering")
+                self.may_raise("builtins.TypeError", "ordering", definite=True)
                 raise _Raise(self.make_exc("builtins.TypeError"), self.cur_where)
         # len(list) against a constant
         for a, b, flip in ((l, r, False), (r, l, True)):
